@@ -15,7 +15,9 @@ ALSO = ("Also not acceptable any more (seen many times): pointers into cached da
         "pointer-to-zero values, blank rule-map entries, *string URL inputs, RM.Set with several field names, zero-padded bounds, tag names differing in case, "
         "dropping the tag-name argument of an entry point, '#' in URLs, carriage returns, dot-files, uintptr, IPv6 zones, field names starting with a particular letter, "
         "byte order marks, panicking callbacks, nesting-depth limits, the most negative integer, empty pieces or bare keys or ';' in URL queries, quotes or brackets or leading blanks in messages, "
-        "embedded fields, tag keys with underscores, a variable captured by a closure in a loop, reused reflect iteration holders, trimming blanks off rule text, arrays passed by value, unhashable interface values. "
+        "embedded fields, tag keys with underscores, a variable captured by a closure in a loop, reused reflect iteration holders, trimming blanks off rule text, arrays passed by value, unhashable interface values, "
+        "invalid percent escapes, invalid UTF-8, '+' vs %20, element index rendering, **T fields, stat errors other than not-exist, value receivers copying a lock, double sync.Pool.Put, commas inside slice elements, the order of SetRule calls, "
+        "substring tests on rule text, white space inside injected values, empty tag literals, local types inside functions, particular integer constants (100, 10, 32). "
         "First read ALL non-test source files and the README; make a list of every function, branch and documented behaviour relevant to this property "
         "that NONE of the items above touches, and pick from that list. Prefer faults in code paths that look boring (helpers in common.go / init.go / "
         "abstract.go / rule.go / handletag.go / witre.go / dump.go, error-path bookkeeping, separators, defaults, path naming, label handling, ordering of "
